@@ -223,8 +223,7 @@ func TestEnum2(t *testing.T) {
 }
 
 // TestEnum3 enumerates all schedules of 3-worker programs.  Quick tier: one
-// operation per worker over the topology failing and (Decode/DecodeExclusive
-// only) single.  Thorough tier:
+// operation per worker over the topologies single and failing.  Thorough tier:
 // one operation per worker over all four topologies, and all programs with at
 // most 4 operations in all (one worker runs two) over single and failing.
 // (Three workers on the chain or the mutual topology with a fourth operation
@@ -243,17 +242,8 @@ func TestEnum3(t *testing.T) {
 		}
 		what = "3 workers x 1 operation over single/failing/chain/mutual and 3 workers with 4 operations in all over single/failing"
 	} else {
-		progs = family(3, 1, 3, "failing")
-		for _, p := range family(3, 1, 3, "single") {
-			plain := true
-			for _, w := range p.Workers {
-				plain = plain && (w[0].Kind == "DecA" || w[0].Kind == "DexA")
-			}
-			if plain {
-				progs = append(progs, p)
-			}
-		}
-		what = "3 workers x 1 operation over the topology failing and, with Decode/DecodeExclusive only, over the topology single"
+		progs = family(3, 1, 3, "single", "failing")
+		what = "3 workers x 1 operation over the topologies single/failing"
 	}
 	ok, complete := enumerate(t, st, progs, false, 6)
 	if ok && complete {
@@ -271,7 +261,7 @@ func TestFullPoints(t *testing.T) {
 	defer singleP()()
 	st := vt.NewStats(property, "fullpoints")
 	progs := family(2, 1, 2)
-	limit := vt.Scale(5000, 1500000)
+	limit := vt.Scale(10000, 1500000)
 	skipped := 0
 	for pi := range progs {
 		if !vt.Mine(pi) {
